@@ -27,6 +27,56 @@ class HarnessBroken(Exception):
     pass
 
 
+def judge_named(ctx, h, R, items, codes, site, tag, what):
+    """items: [(name, witness body, twin body)]: twins must compile, witnesses must be rejected with one of `codes`."""
+    if not items:
+        return 0
+    tw = [(f"{tag}{i:02d}_twin", tb) for i, (n, wb, tb) in enumerate(items)]
+    ws = [(f"{tag}{i:02d}", wb) for i, (n, wb, tb) in enumerate(items)]
+    src, ranges = W.render(tw)
+    p = os.path.join(h.scratch, f"{tag}_twins.rs")
+    open(p, "w").write(src)
+    rc, diags = h.rustc(p)
+    if rc != 0 or diags:
+        raise HarnessBroken(f"CONTROL-BROKEN: {tag} twins do not compile: {[(d['code'], d['msg'][:100]) for d in diags[:3]]}")
+    src, ranges = W.render(ws)
+    p = os.path.join(h.scratch, f"{tag}_witnesses.rs")
+    open(p, "w").write(src)
+    rc, diags = h.rustc(p)
+    per, outside = W.judge(diags, ranges)
+    if outside:
+        raise HarnessBroken(f"CONTROL-BROKEN: diagnostics outside any {tag} witness: {[(d['code'], d['msg'][:100]) for d in outside[:3]]}")
+    for i, (n, wb, tb) in enumerate(items):
+        classes = per.get(f"{tag}{i:02d}", [])
+        if classes and not (set(classes) & codes):
+            raise HarnessBroken(f"CONTROL-BROKEN: {tag} witness `{n}` fails with unexpected {classes}")
+        ok = bool(set(classes) & codes)
+        ctx.inst(R, n, ok, f"rejected by rustc: {sorted(set(classes))}; twin accepted" if ok else
+                 f"this program COMPILES: {what}\n" + wb, site=site, detail=None if ok else {"witness_source": wb, "twin_source": tb})
+    return 2 * len(items)
+
+
+def run_pool_subset(ctx, tier, R="C19.W"):
+    """The pool-related part of the corpus, evaluated (and reported) under C19."""
+    ctx.rule(R, "pool witnesses: allocations and handles obtained through a pool guard cannot outlive pool.reset()/drop, Stats "
+                "cannot outlive the guard, Send/Sync of pool and guard follow the base allocator (rustc as oracle, twins accepted)")
+    h = W.Harness()
+    try:
+        try:
+            h.build_rlib()
+        except RuntimeError as e:
+            raise HarnessBroken(str(e))
+        corpus = [w for w in W.build_corpus(tier) if w.handle.startswith("pool")]
+        n = judge_named(ctx, h, R, [(f"{w.route} / {w.handle}", w.body, w.twin) for w in corpus], W.BORROW_CODES, "borrow witness", "pw",
+                        "a reference into a pooled arena survives the point where the pool may reuse that memory")
+        n += judge_named(ctx, h, R, W.POOL_WITNESSES, W.BORROW_CODES, "pool witness", "pp",
+                         "a handle that observes a pooled arena outlives the guard / the pool is reset while guards are alive")
+        ctx.extra["programs_judged"] = n
+        ctx.floor(R, "pool witness programs", len(corpus) + len(W.POOL_WITNESSES), 10)
+    finally:
+        h.close()
+
+
 def run_corpus(ctx, tier):
     R = "C04.W"
     ctx.rule(R, "every witness program is rejected by rustc with an expected diagnostic; every twin is accepted")
@@ -102,6 +152,8 @@ def run_corpus(ctx, tier):
                      "this program COMPILES: safe code stores an owned BumpScope value into the storage of an owning arena; the same "
                      "chunks are then owned twice (double free) or borrowed memory changes its owner (use after free)\n" + wb,
                      site="owner-overwrite witness", detail=None if ok else {"witness_source": wb, "twin_source": tb})
+        stats["programs"] += judge_named(ctx, h, R, W.POOL_WITNESSES, W.BORROW_CODES, "pool witness", "pp",
+                                         "a handle that observes a pooled arena outlives the guard / the pool is reset while guards are alive")
         # ---- trait-bound witnesses
         fns = [(f"t{i:02d}", wb.replace("{{", "{").replace("}}", "}")) for i, (n, wb, tb) in enumerate(W.TRAIT_WITNESSES)]
         tw = [(f"t{i:02d}_twin", tb.replace("{{", "{").replace("}}", "}")) for i, (n, wb, tb) in enumerate(W.TRAIT_WITNESSES)]
